@@ -5,6 +5,13 @@ Real code: androguard.decompiler.dataflow.build_def_use(graph, lparams) -> (UD, 
 Workload A: random rooted control-flow graphs (1..12 nodes, 0..4 statements per node, registers 0..2 plus 0..2 parameter registers,
   normal + catch edges, self loops, back edges, empty nodes) built from the real Graph / StatementBlock classes and a minimal IRForm
   subclass (get_lhs / get_used_vars); compute_rpo(), number_ins(), build_def_use() exactly as decompile.py / graph.construct do.
+Workload A2 (chains rebuilt after the graph lost instructions): on every second graph of workload A, and on additional graphs with longer
+  blocks (up to 9 statements), after the first comparison instructions are taken out of the graph through the project's own code - either
+  Graph.remove_ins(loc) on 1..4 random locations (first, middle, last statements of blocks, whole blocks emptied) or
+  dataflow.dead_code_elimination(graph, DU, UD) fed with (a copy of) the chains just built, some defining statements marked
+  has_side_effect() - exactly what DvMethod.process() does between analyses: the locations are NOT renumbered, blocks keep holes in
+  their numbering.  The snapshot and the reference solution are recomputed on the mutated graph, build_def_use is called again and
+  compared (mechanism names get the suffix -after-instructions-were-removed).
 Workload B: passive wrapper around build_def_use - both `dataflow.build_def_use` and the name imported into
   `androguard.decompiler.decompile` - while DvMethod(mx).process() decompiles the methods of the shipped DEX files; the oracle reads
   get_lhs()/get_used_vars() of the real IR at the moment of the call.
@@ -22,6 +29,8 @@ Domain decisions
     along paths from the definition (the property speaks of paths from the definition to the use).
   * duplicates inside a UD/DU list (an instruction naming a register twice) are counted, not judged: the property is about sets.
   * an exception out of DvMethod.process() elsewhere in the decompiler is not this property (counted).
+  * what dead_code_elimination / update_chain do to the chains handed to them (in-place maintenance) is not judged here, and an exception
+    out of dead_code_elimination is not this property (counted); only the chains build_def_use returns for the graph as it then is.
 Mechanisms: ud-missing-def-<where>, ud-extra-def-<where>, param-def-missing, param-def-extra, ud-key-for-non-use, du-not-inverse,
   build-def-use-raises; <where> = same-node-prior | same-node-loop-carried | other-node | other-node-via-catch-edge-only (the last
   one only for missing definitions: the definition reaches the use only along paths that take a catch edge).
@@ -135,8 +144,8 @@ def where(snap, var, d, u, missing=True):
     return "other-node-via-catch-edge-only"
 
 
-def compare(ctx, snap, UD, DU, tag, describe):
-    """-> (nkeys, nontrivial) ; records violations"""
+def compare(ctx, snap, UD, DU, tag, describe, suffix=""):
+    """-> (nkeys, nontrivial) ; records violations (mechanism names + suffix)"""
     want = oracle_ud(snap["node_locs"], snap["succ"], snap["entry"], snap["params"], snap["lhs"], snap["used"])
     use_keys = set()
     for loc, vs in snap["used"].items():
@@ -158,7 +167,7 @@ def compare(ctx, snap, UD, DU, tag, describe):
         if k not in use_keys:
             if g and "ud-key-for-non-use" not in reported:
                 reported.add("ud-key-for-non-use")
-                ctx.violation("ud-key-for-non-use", "UD has an entry for a (register, location) where the instruction does not use the register",
+                ctx.violation("ud-key-for-non-use" + suffix, "UD has an entry for a (register, location) where the instruction does not use the register",
                               dict(describe(), key=list(k), got=sorted(g), tag=tag))
             continue
         if len(w) >= 2 or any(True for d in w if d >= 0 and not _same_node(snap, d, u)):
@@ -169,12 +178,12 @@ def compare(ctx, snap, UD, DU, tag, describe):
             mech = "param-def-missing" if d < 0 else "ud-missing-def-" + where(snap, var, d, u)
             if mech not in reported:
                 reported.add(mech)
-                ctx.violation(mech, "a definition that reaches the use is not in UD", dict(describe(), var=var, use_loc=u, got=sorted(g), want=sorted(w), missing=d, tag=tag))
+                ctx.violation(mech + suffix, "a definition that reaches the use is not in UD", dict(describe(), var=var, use_loc=u, got=sorted(g), want=sorted(w), missing=d, tag=tag))
         for d in sorted(g - w):
             mech = "param-def-extra" if d < 0 else "ud-extra-def-" + where(snap, var, d, u, missing=False)
             if mech not in reported:
                 reported.add(mech)
-                ctx.violation(mech, "UD links a definition that does not reach the use", dict(describe(), var=var, use_loc=u, got=sorted(g), want=sorted(w), extra=d, tag=tag))
+                ctx.violation(mech + suffix, "UD links a definition that does not reach the use", dict(describe(), var=var, use_loc=u, got=sorted(g), want=sorted(w), extra=d, tag=tag))
     inv = {}
     for (var, u), ds in got.items():
         for d in ds:
@@ -182,7 +191,7 @@ def compare(ctx, snap, UD, DU, tag, describe):
     gdu = {k: set(v) for k, v in DU.items() if v}
     if gdu != inv:
         bad = sorted((set(gdu) ^ set(inv)) | {k for k in set(gdu) & set(inv) if gdu[k] != inv[k]}, key=repr)[:4]
-        ctx.violation("du-not-inverse", "DU is not the inverse relation of UD",
+        ctx.violation("du-not-inverse" + suffix, "DU is not the inverse relation of UD",
                       dict(describe(), keys=[list(k) for k in bad], du={repr(k): sorted(gdu.get(k, ())) for k in bad}, inverse_of_ud={repr(k): sorted(inv.get(k, ())) for k in bad}, tag=tag))
     return len(use_keys), nontrivial
 
@@ -209,6 +218,10 @@ def stmt_class():
             def __init__(self, lhs, uses):
                 super().__init__()
                 self._lhs, self._uses = lhs, list(uses)
+                self.side = False
+
+            def has_side_effect(self):
+                return self.side
 
             def get_lhs(self):
                 return self._lhs
@@ -281,9 +294,107 @@ def build_real(case):
     return g, nodes
 
 
+# ---- workload A2: the chains are rebuilt after instructions were removed from the graph -----------------------------------------
+SUFFIX_REMOVED = "-after-instructions-were-removed"
+
+
+def lengthen(case, rng):
+    """longer blocks (up to 9 statements) over the same registers: room for holes between a definition and a use in one block"""
+    regs = sorted({l for body in case["stmts"] for (l, _) in body if l is not None} | {v for body in case["stmts"] for (_, u) in body for v in u}
+                  | set(case["params"]) | {0})
+    for body in case["stmts"]:
+        for _ in range(rng.choice([0, 2, 3, 4, 5])):
+            lhs = rng.choice(regs) if rng.random() < 0.7 else None
+            uses = sorted({rng.choice(regs) for _ in range(rng.choice([0, 1, 1, 2]))})
+            if lhs is not None and rng.random() < 0.3 and lhs not in uses:
+                uses = sorted(uses + [lhs])  # x = f(x, ...)
+            body.insert(rng.randrange(len(body) + 1), (lhs, uses))
+    return case
+
+
+def plan_mutation(rng, snap):
+    locs = [l for L in snap["node_locs"] for l in L]
+    if not locs:
+        return None
+    if rng.random() < 0.35:
+        side = sorted(l for l in locs if snap["lhs"][l] is not None and rng.random() < 0.3)
+        return {"mode": "dead_code_elimination", "side_effect_locs": side}
+    k = min(len(locs), rng.choice([1, 1, 2, 2, 3, 4]))
+    return {"mode": "remove_ins", "locs": rng.sample(locs, k)}
+
+
+def apply_mutation(g, mutation, UD, DU):
+    """through the project's own code only; the locations are not renumbered (nobody does between the decompiler's passes)"""
+    import copy
+    from androguard.decompiler import dataflow
+    if mutation["mode"] == "remove_ins":
+        for loc in mutation["locs"]:
+            g.remove_ins(loc)
+    else:
+        for loc in mutation["side_effect_locs"]:
+            g.get_ins_from_loc(loc).side = True
+        dataflow.dead_code_elimination(g, copy.deepcopy(DU), copy.deepcopy(UD))
+
+
+def rebuild_after_removal(ctx, g, case, mutation, snap0, UD, DU, tag):
+    """snap0/UD/DU: snapshot and chains of the graph before the mutation.  -> True when the rebuilt chains were compared"""
+    from androguard.decompiler import dataflow
+    mode = mutation["mode"]
+    try:
+        apply_mutation(g, mutation, UD, DU)
+    except Exception as e:
+        # not this property; the graph is still a graph (Graph.remove_ins is the only thing that touched it): go on with what is left
+        ctx.count("removal_raised_%s_not_this_property" % mode)
+        ctx.extra.setdefault("removal_raised", {})[mode] = {"case": case, "mutation": mutation, "exc": exc_str(e)}
+    snap = snapshot(g, case["params"])
+    removed = sum(map(len, snap0["node_locs"])) - sum(map(len, snap["node_locs"]))
+    if not removed:
+        ctx.count("nothing_removed_by_" + mode)
+        return False
+    ctx.count("instructions_removed_by_" + mode, removed)
+    gaps = 0
+    for L in snap["node_locs"]:
+        if L and L[-1] - L[0] != len(L) - 1:
+            gaps += 1
+    ctx.count("blocks_with_a_gap_in_their_numbering", gaps)
+    ctx.count("blocks_emptied", sum(1 for a, b in zip(snap0["node_locs"], snap["node_locs"]) if a and not b))
+
+    def describe():
+        return {"case": case, "mutation": mutation, "locs_per_node_in_rpo_before": snap0["node_locs"], "locs_per_node_in_rpo": snap["node_locs"],
+                "rpo": [nd.name for nd in g.rpo]}
+    ctx.ev()
+    ctx.count("build_def_use_calls_after_" + mode)
+    try:
+        UD2, DU2 = dataflow.build_def_use(g, case["params"])
+    except Exception as e:
+        ctx.violation("build-def-use-raises" + SUFFIX_REMOVED, "build_def_use raises on a graph from which instructions were removed (Graph.remove_ins)",
+                      dict(describe(), exc=exc_str(e)))
+        return False
+    nkeys, nontriv = compare(ctx, snap, UD2, DU2, tag, describe, suffix=SUFFIX_REMOVED)
+    ctx.count("use_keys_compared_after_removal", nkeys)
+    # the uses this scenario is about: the numbering between the first statement of the block and the use has a hole, and a definition
+    # of the same block reaches the use (the in-block search has to find it across the hole)
+    want = oracle_ud(snap["node_locs"], snap["succ"], snap["entry"], snap["params"], snap["lhs"], snap["used"]) if gaps else {}
+    below = 0
+    for L in snap["node_locs"]:
+        for p, u in enumerate(L):
+            if u - L[0] == p:
+                continue
+            for var in set(snap["used"][u]):
+                if any(0 <= d < u and d in L for d in want.get((var, u), ())):
+                    below += 1
+    if below:
+        ctx.count("uses_below_a_gap_with_a_reaching_definition_in_the_block", below)
+    if nontriv:
+        ctx.sig("A2", repr(case), repr(mutation))
+    return True
+
+
+
 def shard_a(ctx, arg):
     from androguard.decompiler import dataflow
     rng = ctx.rng("c20-A", arg["shard"])
+    mrng = ctx.rng("c20-A-removal", arg["shard"])  # its own stream: the graphs of workload A stay what they were
     for j in range(arg["count"]):
         case = gen_graph(rng, small=(j % 3 == 0))
         g, nodes = build_real(case)
@@ -315,6 +426,29 @@ def shard_a(ctx, arg):
             ctx.sig("A", case["n"], tuple(map(tuple, case["edges"])), tuple(map(tuple, case["catch"])), repr(case["stmts"]), tuple(case["params"]))
         if arg["shard"] == 0 and j in (5, 50):
             ctx.sample({"workload": "A", "case": case, "UD": {repr(k): sorted(v) for k, v in sorted(UD.items(), key=repr)[:12]}})
+        if j % 2 == 0:
+            mutation = plan_mutation(mrng, snap)
+            if mutation:
+                rebuild_after_removal(ctx, g, case, mutation, snap, UD, DU, "A-after-" + mutation["mode"])
+    # graphs with longer blocks: first analysis, removal, second analysis
+    for j in range(arg["count"] // 5):
+        case = lengthen(gen_graph(mrng, small=(j % 2 == 0)), mrng)
+        g, nodes = build_real(case)
+        snap = snapshot(g, case["params"])
+        ctx.ev()
+        ctx.count("build_def_use_calls_long_block_graphs")
+        try:
+            UD, DU = dataflow.build_def_use(g, case["params"])
+        except Exception as e:
+            ctx.violation("build-def-use-raises", "build_def_use raises on a rooted graph", {"case": case, "exc": exc_str(e)})
+            continue
+        nkeys, nontriv = compare(ctx, snap, UD, DU, "A-long-blocks", lambda case=case, snap=snap: {"case": case, "locs_per_node_in_rpo": snap["node_locs"]})
+        ctx.count("use_keys_compared", nkeys)
+        if nontriv:
+            ctx.sig("A", repr(case))
+        mutation = plan_mutation(mrng, snap)
+        if mutation:
+            rebuild_after_removal(ctx, g, case, mutation, snap, UD, DU, "A-long-blocks-after-" + mutation["mode"])
 
 
 # ---- workload B ---------------------------------------------------------------------------------------------------------------
@@ -429,6 +563,11 @@ def run(ctx):
     ctx.require_counter("build_def_use_calls_workload_A", 1000)
     ctx.require_counter("build_def_use_calls_via_decompile", 50)
     ctx.require_counter("use_keys_compared", 5000)
+    ctx.require_counter("build_def_use_calls_after_remove_ins", 500)
+    ctx.require_counter("build_def_use_calls_after_dead_code_elimination", 200)
+    ctx.require_counter("use_keys_compared_after_removal", 5000)
+    ctx.require_counter("blocks_with_a_gap_in_their_numbering", 500)
+    ctx.require_counter("uses_below_a_gap_with_a_reaching_definition_in_the_block", 300)
     ctx.min_distinct = 200
 
 
@@ -448,6 +587,8 @@ def replay(ctx, path):
             ctx.ev()
             UD, DU = dataflow.build_def_use(g, case["params"])
             compare(ctx, snap, UD, DU, "A", lambda: {"case": case})
+            if w.get("mutation"):
+                rebuild_after_removal(ctx, g, case, w["mutation"], snap, UD, DU, "A-after-" + w["mutation"]["mode"])
             ctx.sig("A", repr(case))
             ctx.sample({"case": case, "UD": {repr(k): sorted(v) for k, v in UD.items()}})
         elif w.get("file"):
